@@ -552,7 +552,9 @@ def c17_runs(tier, rep, bins):
     def runs_for(c):
         runs = []
         for (b, l) in [("inplace", 0), ("irint", 2), ("bcint", 0), ("bcint", 2), ("jit", 0), ("jit", 2)]:
-            for k in ks:
+            for k in ks:       # the k-th tape-growth request is refused
+                runs.append({"backend": b, "level": l, "alloc": "failtape", "failK": k, "failMin": 0, "stream": 1})
+            for k in ks[:3]:   # the k-th allocation of any kind during execution is refused
                 runs.append({"backend": b, "level": l, "alloc": "fail", "failK": k, "failMin": 0, "stream": 1})
         return runs
 
@@ -589,7 +591,8 @@ def c17(tier):
     rep.coverage["evaluations"] = rep.coverage.get("runs_with_injected_allocation_failure", 0)
     rep.coverage["distinct_nontrivial"] = len(cases)
     rep.coverage["rule"] = ("halting roamer / structured programs x {inplace, irint-O2, bcint-O0/O2, jit-O0/O2} x "
-                            "which allocation request made during execution is refused (1st..8th); the outcome "
+                            "which tape-growth request is refused (1st..8th, hook IN_TAPE_GROWTH) or which allocation of any "
+                            "kind during execution is refused (1st..3rd); the outcome "
                             "(streamed event log + how the process ended) is validated by TLC (BFTrace): ending "
                             "through SIGABRT or a panic after the refusal with a prefix of the canonical log is "
                             "accepted, SIGSEGV/SIGBUS, a normal return after a refused request, or any event that "
